@@ -58,7 +58,8 @@ def enabledList (s : St) : List (Nat × Nat) :=
         ((List.range p.n).filter (tEnabled s p)).map fun i => (k, i + 1)
 
 def newProc (reent : Bool) (budget : Nat) (pill : Bool) : Proc :=
-  { c := init reent budget (fun i => if i = 0 then .aB pill else .done), n := 1 }
+  -- default options: deactivateAfter is minutes away, a passivation pill only re-registers the grain
+  { c := init reent false budget (fun i => if i = 0 then .aB pill else .done), n := 1 }
 
 def addThread (p : Proc) (pc : GT) : Proc := { c := setT p.c p.n pc, n := p.n + 1 }
 
@@ -180,7 +181,8 @@ def parseBudget (cfg : List String) : Nat :=
 
 /-- the scenario starts with the identity activated by a no-message activation (GrainIdentity) -/
 def startProc (reent : Bool) (budget : Nat) : Proc :=
-  let c0 := init reent budget (fun i => if i = 0 then .aB false else .done)
+  -- the scenario's first process is created WithLongLivedGrain: no idle time-out, a pill deactivates at once
+  let c0 := init reent true budget (fun i => if i = 0 then .aB false else .done)
   -- activation: aB, aE; the activating call carries no message (thread 0 ends without sending)
   let c1 := step (step c0 1) 1
   { c := setT c1 0 .done, n := 1 }
